@@ -5,6 +5,7 @@ import (
 	"net"
 	"net/netip"
 	"strings"
+	"sync"
 	"testing"
 	"time"
 
@@ -66,8 +67,11 @@ func c13World(t *testing.T, p c13Params) rt.Result {
 		nl := 1 + len(w.Extra)
 		mons := map[string]*hz.PeerMon{}
 		live := map[string]*hz.RConn{} // the connection that carries a peer's Established session
+		var amu sync.Mutex // the dial goroutines of several peers consult the policy concurrently
 		acceptFor := map[netip.Addr]bool{}
 		w.DialPolicy = func(r hz.DialReq) (hz.DialAction, time.Duration) {
+			amu.Lock()
+			defer amu.Unlock()
 			if acceptFor[r.Peer] {
 				acceptFor[r.Peer] = false
 				return hz.DialAccept, 0
@@ -137,7 +141,9 @@ func c13World(t *testing.T, p c13Params) rt.Result {
 			}
 			ps := mkSpec(pp)
 			if pp.State == "est-out" || pp.State == "out-opensent" {
+				amu.Lock()
 				acceptFor[ps.Addr] = true
+				amu.Unlock()
 			}
 			mon := w.MustAddPeer(ps)
 			mons[pp.Addr] = mon
